@@ -323,11 +323,13 @@ def run (case impl : String) : String × String :=
       match o with
       | none => ("bad-case", "na")
       | some o =>
-        let o := if pclose.isSome then { o with closed := true } else o
-        let judge (o : Obs) : Bool :=
+        -- `lost=<i>`: query i was still at the upstream when the listener closed the connection on the half-sent
+        -- frame (n > 0): it was forwarded, its answer went down with the connection
+        let lost := (kvNat toks "lost").getD 0
+        let o := if pclose.isSome then { o with closed := true, w := o.w.filter (fun p => p.1 != lost) } else o
+        let judge (o' : Obs) : Bool :=
           if pclose.isSome then
-            o.closed && (if proto == "gnet" then Gnet.spec gc { o with closed := false }
-                         else spec max sent { o with closed := false })
+            o'.closed && sortW o'.w == sortW o.w && o'.up == o.up
           else if proto == "gnet" then Gnet.spec gc o
           else if pp then ppSpec sent o
           else if wave then specS max (waveDone k1) sent o
